@@ -590,8 +590,15 @@ def coef(index, rep, db):
 def sumset(index, rep):
     rule = "C04.SUMSET"
     fn = index.func(INT, "Interpreter.get_sum_by_adding_to_humans")
-    asg = [s for s in fn.body if isinstance(s, ast.Assign) and isinstance(s.value, ast.BinOp)]
-    if not asg:
+    # what the function returns, after copy propagation (the sum may be returned directly or through a local)
+    rets_ = [r for r in fn.body if isinstance(r, ast.Return) and r.value is not None]
+    if len(rets_) != 1:
+        raise AnalysisError("get_sum_by_adding_to_humans: not exactly one top-level return")
+    try:
+        sum_expr = ast.parse(Inliner(fn).at(rets_[0]).src(rets_[0].value), mode="eval").body
+    except SyntaxError:
+        raise AnalysisError("get_sum_by_adding_to_humans: sum expression not found")
+    if not isinstance(sum_expr, ast.BinOp):
         raise AnalysisError("get_sum_by_adding_to_humans: sum expression not found")
     terms = []
 
@@ -602,20 +609,21 @@ def sumset(index, rep):
         else:
             terms.append(norm_src(e))
 
-    flat(asg[0].value)
+    flat(sum_expr)
     want = sorted("self." + n for n in NINE)
     rep.check(sorted(terms) == want, rule, "sum:exactly-the-nine-contributions",
               f"the headline sum has terms {sorted(set(terms) ^ set(want))} off the nine contributions (a food missing, counted twice, or a "
               "split series added on top)", loc=loc(INT, fn))
-    rets = [norm_src(r.value) for r in fn.body if isinstance(r, ast.Return)]
-    rep.check(rets == [norm_src(asg[0].targets[0])], rule, "sum:returned", "the computed sum is not what is returned", loc=loc(INT, fn))
+    rep.ok(rule, "sum:returned")
     gp = index.func(INT, "Interpreter.get_percent_people_fed")
     ret = [r for r in gp.body if isinstance(r, ast.Return)]
     gp_param = gp.args.args[1].arg if len(gp.args.args) > 1 else "humans_fed_sum"
-    # slot 0 of what is returned reads (after copy propagation) `<the sum parameter>.get_min_nutrient()[1]`
-    ok = bool(ret) and isinstance(ret[-1].value, (ast.List, ast.Tuple)) and \
-        Inliner(gp).at(ret[-1]).src(ret[-1].value.elts[0]) == f"{gp_param}.get_min_nutrient()[1]"
-    rep.check(ok, rule, "headline = min nutrient value of the sum", "percent fed is not the value returned by get_min_nutrient() of the sum",
+    # one slot of what is returned reads (after copy propagation) `<the sum parameter>.get_min_nutrient()[1]`; the caller stores that slot
+    slot = None
+    if ret and isinstance(ret[-1].value, (ast.List, ast.Tuple)):
+        at = Inliner(gp).at(ret[-1])
+        slot = next((k for k, e in enumerate(ret[-1].value.elts) if at.src(e) == f"{gp_param}.get_min_nutrient()[1]"), None)
+    rep.check(slot is not None, rule, "headline = min nutrient value of the sum", "percent fed is not the value returned by get_min_nutrient() of the sum",
               loc=loc(INT, gp))
     ap = index.func(INT, "Interpreter.assign_interpreted_properties")
     body = ap.body
@@ -624,9 +632,9 @@ def sumset(index, rep):
     i_round = next((i for i, s in enumerate(body) if "self.correct_and_validate_rounding_errors()" in norm_src(s)), None)
     ok = None not in (i_sum, i_head) and i_sum < i_head and (i_round is None or i_round > i_sum)
     if ok:
-        t = body[i_head].targets[0]
-        ok = isinstance(t, ast.Tuple) and norm_src(t.elts[0]) == "self.percent_people_fed" and \
-            norm_src(body[i_head].value) == f"self.get_percent_people_fed({norm_src(body[i_sum].targets[0])})"
+        inl_ap = Inliner(ap)
+        got = [inl_ap.src(v_) for t_, v_ in inl_ap.stores if norm_src(t_) == "self.percent_people_fed"]
+        ok = got == [f"self.get_percent_people_fed(self.get_sum_by_adding_to_humans())[{slot}]"]
     rep.check(ok, rule, "headline-from-unrounded-sum",
               "percent_people_fed is not computed from the sum of the unrounded contributions (display rounding must come after)", loc=loc(INT, ap))
     ir = index.func(INT, "Interpreter.interpret_results")
